@@ -170,17 +170,18 @@ def ctrl_thread_delays(chk, tier):
     from vlib import lpi
     from vlib.common import workdir, pmap, cleanup, run_case
     wd = workdir('c03ctrl')
-    combos = [('PersistentProcessWorker', '_ctrl_fn', 'idle'), ('ProcessWorker', '_ctrl_fn', 'loop'), ('PersistentRemoteWorker', '_ctrl_fn_local', 'idle'), ('RemoteWorker', '_ctrl_fn_local', 'loop'),
+    combos = [('PersistentProcessWorker', '_ctrl_fn', 'idle'), ('PersistentProcessWorker', '_ctrl_fn', 'idle-tnone'), ('ProcessWorker', '_ctrl_fn', 'loop'), ('PersistentRemoteWorker', '_ctrl_fn_local', 'idle'), ('RemoteWorker', '_ctrl_fn_local', 'loop'),
               ]
 
     def spec_of(cls, state):
-        if state == 'idle':
+        if state in ('idle', 'idle-tnone'):
             sp = dict(cls=cls, target='p_work', targs=[0, '$DIR'], inputs=[[1]], read_first=1, close_before_point=False, quiet=False)
             own = ('value', '1')
         else:
             # a target that never finishes on its own
             sp, own = dict(cls=cls, target='py_loop', targs=['$DIR', None], quiet=False), ('value', 'never')
-        sp = dict(sp, action=dict(kind='terminate', timeout=8, force=False, settle=0.3), expect_point=False, wait_timeout=20)
+        # 'tnone': terminate(timeout=None) - wait as long as it takes
+        sp = dict(sp, action=dict(kind='terminate', timeout=(None if state.endswith('tnone') else 8), force=False, settle=0.3, deadline=40), expect_point=False, wait_timeout=20)
         return sp, own
 
     jobs = []
